@@ -307,7 +307,7 @@ EXPECT = {
 
 
 @rule("SIB4", {"C12": {"walkers": [BIN + "._get"]},
-               "C13": {"walkers": ["trie.branches:_check_if_branch_exist", "trie.branches:_get_branch",
+               "C13": {"walkers": [BIN + "._get", "trie.branches:_check_if_branch_exist", "trie.branches:_get_branch",
                                    "trie.branches:_get_witness_for_key_prefix", "trie.branches:_get_trie_nodes"]}})
 def sib4(ctx, pid, walkers):
     """Walkers agree with BinaryTrie._get: descent into the kv child only under the prefix-equality
@@ -493,6 +493,24 @@ def ts6(ctx, pid):
         elif not nonempty:
             ok = False
             why = "a path returns True without requiring a non-empty branch"
+    # the only refusals are: empty branch, malformed node (validator), wrong answer at the root
+    extra = None
+    for p, st in pq.states(ctx, f):
+        if p.exit[0] != "raise" or p.exit[1] != "AssertionError" or pq.local_raise(p) is None:
+            continue
+        last = st.log[-1] if st.log else None
+        if last is None:
+            continue
+        tt, pp = truth_norm(last[0], last[1])
+        r = rel_norm(last[0], last[1])
+        known = (tt == ("p", "branch") and pp is False) or (r is not None and r[0] == "!=" and any(
+            x[0] == "call" and x[1] == BIN + ".get" for x in (r[1], r[2])))
+        if not known:
+            extra = extra or (last[2], tstr(tt)[:70])
+    if extra:
+        ctx.unsure("refusals:if_branch_valid", f.loc(extra[0]), "if_branch_valid has an additional refusal `%s` that the rule cannot show to be implied by a genuine branch (it may reject valid proofs)" % extra[1])
+    else:
+        ctx.ok("refusals:if_branch_valid", f.loc(), "a branch is refused only when it is empty, holds a malformed node, or does not give the claimed answer at the claimed root")
     c = "verdict-dominated:if_branch_valid"
     if n_ret == 0:
         ctx.bad(c, f.loc(), "if_branch_valid never returns")
